@@ -4,8 +4,10 @@ package main
 // validation by spec/Trace_Attach.tla (I->S direction of C15, C16 and the attachment side of C10).
 
 import (
+	"bytes"
 	"encoding/binary"
 	"errors"
+	"fmt"
 	"math/rand"
 	"os"
 )
@@ -386,5 +388,134 @@ func init() {
 			q = "Panic"
 		}
 		out.put(aEvent{Ev: "close", Sess: 0, Quit: q, Reset: endErr != nil && len(marks) > len(given), Detail: pn + rec.quit, Obs: []AObs{}})
+	}
+}
+
+func init() {
+	// c15-big <out>: upload sessions with files of tens / hundreds of kilobytes through the real connection loop; summarised
+	// for spec/Trace_BigUpload.tla (ranges decided there; the bytes of the stored file are compared here)
+	cmds["c15-big"] = func(a []string) {
+		os.Stdout, _ = os.Open(os.DevNull)
+		out := newND(a[0])
+		defer out.close()
+		r := newRand(1565)
+		type plan struct {
+			size, chunk int
+			lose        []int // indices of chunks withheld until the report
+			dialect     string
+		}
+		plans := []plan{
+			{3*65536 + 123, 65536, []int{1, 2}, "JS"},            // two adjacent 64 KiB chunks lost: one 128 KiB range
+			{70000, 65536, []int{0}, "HLJ"},                      // the first 64 KiB lost
+			{65536 + 65535, 65535, nil, "GD"},                    // nothing lost, lengths just below 2^16
+			{200000, 1000, []int{0, 64, 65, 66, 131, 199}, "SC"}, // many small chunks, gaps at the 2^16 / 2^17 marks and both ends
+			{131072, 131072, nil, "HN"},                          // one chunk of 2^17 bytes
+			{100001, 40000, []int{2}, "JS"},                      // the tail lost
+		}
+		for pi, pl := range plans {
+			content := make([]byte, pl.size)
+			for i := range content {
+				content[i] = byte(i*13 + i>>8 + pi)
+			}
+			phone := randPhone(r, 0)
+			ser := 0
+			ctl := func(id int, body []byte) []byte {
+				ser++
+				return buildFrame(hdrSpec{id: id, serial: ser, phone: phone, body: body})
+			}
+			name := []byte(fmt.Sprintf("big_%d.bin", pi))
+			f := aFile{name, content}
+			var first, lost []seg
+			lose := map[int]bool{}
+			for _, k := range pl.lose {
+				lose[k] = true
+			}
+			for k, off := 0, 0; off < pl.size; k, off = k+1, off+pl.chunk {
+				n := pl.chunk
+				if off+n > pl.size {
+					n = pl.size - off
+				}
+				if lose[k] {
+					lost = append(lost, seg{off, n})
+				} else {
+					first = append(first, seg{off, n})
+				}
+			}
+			// the ranges to resend: the lost chunks, adjacent ones merged (what the specification's report lists)
+			var resend []seg
+			for _, s := range lost {
+				if n := len(resend); n > 0 && resend[n-1].Off+resend[n-1].Len == s.Off {
+					resend[n-1].Len += s.Len
+				} else {
+					resend = append(resend, s)
+				}
+			}
+			units := [][]byte{ctl(0x1210, body1210(pl.dialect, r, []aFile{f})), ctl(0x1211, body1211(name, 2, pl.size))}
+			r.Shuffle(len(first), func(i, j int) { first[i], first[j] = first[j], first[i] })
+			for _, s := range first {
+				units = append(units, chunkBytes(pl.dialect, name, s.Off, content[s.Off:s.Off+s.Len]))
+			}
+			units = append(units, ctl(0x1212, body1211(name, 2, pl.size)))
+			for _, s := range resend {
+				units = append(units, chunkBytes(pl.dialect, name, s.Off, content[s.Off:s.Off+s.Len]))
+			}
+			units = append(units, ctl(0x1212, body1211(name, 2, pl.size)))
+			var segs [][]byte // slices that fit the server's read buffer: one Read each
+			for _, u := range units {
+				for len(u) > 0 {
+					n := len(u)
+					if n > 50000 {
+						n = 50000
+					}
+					segs = append(segs, append([]byte{}, u[:n]...))
+					u = u[n:]
+				}
+			}
+			run := runAttach(pl.dialect, segs, nil)
+			ev := map[string]any{"size": pl.size, "chunks": first, "resent": resend, "report": []seg{}, "result1": -1, "result2": -1, "nreport2": -1,
+				"completed": false, "contentok": false, "storedlen": -1, "quit": quitClass(run.Quit), "panic": run.Panic, "dialect": pl.dialect}
+			if resend == nil {
+				ev["resent"] = []seg{}
+			}
+			n9212 := 0
+			for _, o := range run.Obs {
+				if o.Kind == "chunk" && o.Complete {
+					ev["completed"] = true
+					ev["storedlen"] = len(o.Content)
+					ev["contentok"] = bytes.Equal(o.Content, content)
+				}
+				if o.Kind != "control" || (o.Stage != "Complete" && o.Stage != "Supplementary") {
+					continue
+				}
+				dv, _ := decodeView(o.Reply)
+				if !dv.Ok || dv.ID != 0x9212 || len(dv.Body) < 4 {
+					continue
+				}
+				b := dv.Body
+				l := int(b[0])
+				if len(b) < 4+l {
+					continue
+				}
+				res, cnt := int(b[2+l]), int(b[3+l])
+				var rep []seg
+				for i := 0; i < cnt && 4+l+8*i+8 <= len(b); i++ {
+					at := 4 + l + 8*i
+					rep = append(rep, seg{int(binary.BigEndian.Uint32(b[at:])), int(binary.BigEndian.Uint32(b[at+4:]))})
+				}
+				n9212++
+				if n9212 == 1 {
+					if rep == nil {
+						rep = []seg{}
+					}
+					ev["result1"], ev["report"] = res, rep
+					if len(lost) == 0 { // nothing was lost: the first report is also the last
+						ev["result2"], ev["nreport2"] = res, cnt
+					}
+				} else {
+					ev["result2"], ev["nreport2"] = res, cnt
+				}
+			}
+			out.put(ev)
+		}
 	}
 }
